@@ -448,9 +448,10 @@ def check_hillclimber(prog, rep, mod, cname):
                     good = False
             ptuple = prop.strip("()").split(", ")
             btuple = [x.replace("prop_", "best_") for x in ptuple]
-            for bb, pp in zip(btuple, ptuple):
+            for bb, pp in list(zip(btuple, ptuple)) + [("best_score", "prop_score"), ("best_cv", "prop_cv")]:
                 if sets.get(bb) != pp:
-                    rep.violate("R2-truthful", construct, "accepting an exchange stores %s = %s, not the proposal's %s" % (bb, sets.get(bb), pp), where(f, inner), pp, str(sets.get(bb)))
+                    rep.violate("R2-truthful", construct, "accepting an exchange stores %s = %s, not the proposal's %s: later proposals of the scan are compared with a stale value"
+                                % (bb, sets.get(bb), pp), where(f, inner), pp, str(sets.get(bb)))
                     good = False
     if acc_paths < 2:
         rep.unrec("R3-swaps", construct, "expected two acceptance branches (smaller violation; equal violation and smaller score)")
